@@ -10,6 +10,7 @@ P = "Cppcms.C13.Props."
 OBLIGATIONS = [
     (P + "normalize_never_climbs", "for EVERY byte string p: normalize p is absolute and has no empty, '.' or '..' component (Spec.canonical)"),
     (P + "normalize_fixes_canonical", "a canonical path is left unchanged by normalize (so the model is not trivially safe); corollary normalize_idempotent"),
+    (P + "normalize_resolves_dots_and_slashes", "for a request without a '..' piece: components of normalize p = the pieces of p minus the empty and '.' ones, in order"),
     (P + "normalize_idempotent", "normalize (normalize p) = normalize p for every byte string"),
     (P + "normalize_bytes_from_input", "every byte of normalize p is a byte of p or '/' (so a NUL-free request stays NUL-free)"),
     (P + "is_file_prefix_iff_component_prefix", "for canonical p, f: is_file_prefix p f <-> components of p are a list prefix of the components of f ('/al' does not match '/alX')"),
@@ -24,6 +25,7 @@ OBLIGATIONS = [
     (P + "only_regular_files_streamed_posix", "under POSIX file types (stat follows links) and 'a socket cannot be opened for reading': a streamed file is S_IFREG"),
     (P + "listing_only_when_enabled", "a listing is produced only if file_server.listing is on"),
     (P + "listing_skips_dotfiles_and_escapes", "every row of a listing is an entry of the directory read, does not start with '.', and its text un-escapes to name(+'/') with no < > \" ' and only well-formed &-references; the title is the escaped request path"),
+    (P + "listing_rows_exact", "names shown = readdir entries, in order, filtered by: not starting with '.', stat ok with S_IFDIR or S_IFREG bit"),
     (P + "redirect_target", "a redirect goes to file_name ++ '/' only, for a directory, when an index exists or listing is on"),
 ]
 
